@@ -216,8 +216,10 @@ def run(ck, F, E):
                    "containing a colon (\"12:30\") is reported as EXTRA IGNORED", tkb.span)
     # (3) reply consumed once
     ws = E.writers_of_field("interpreter::Interpreter", "input")
+    from lib import allowed_via_callers
+    ok_w = ("Interpreter::take_input", "Interpreter::provide_input", "Interpreter::maybe_process_command")
     names = sorted(n.split("::")[-1] for n in ws)
-    ck.require(set(names) <= {"take_input", "provide_input", "maybe_process_command"}, "C08:REPLY:writers", "reply consumption",
+    ck.require(all(allowed_via_callers(F, n, ok_w) for n in ws), "C08:REPLY:writers", "reply consumption",
                "Interpreter.input is written by %s" % names, "Interpreter.input is also written by %s" % names)
     tk = get_fn(ck, F, "Interpreter::take_input")
     if tk is not None:
